@@ -9,7 +9,7 @@ import LocustModel.Store.Interleave
   observed after each flush), and canonical printing of model state and specification.
 
   History line:   <cfg> <step> <step> …
-     cfg   = `cfg=<combine>,<part_bytes>,<io>,<cthreads>,<wal_files>,<wal_bytes>`
+     cfg   = `cfg=<combine>,<part_bytes>,<io>,<cthreads>,<wal_files>,<wal_bytes>[,<mem_lz4>]`
      (C18 only, after the `L…` token) `E<phase>><phase>…` the file-system effects observed during the last step,
            phase = `<kind>:<hex path>,…` with kind w (store segment) s (store partition file) m (store catalogue)
            d (remove partition file) x (remove segment); `E_` when there was none
@@ -21,6 +21,7 @@ import LocustModel.Store.Interleave
              `Zb<k>`        the flush thread took k pending requests and ran its freeze block
              `Zp<catalogue>` batching + persist_partitions + compactions (catalogue = the one found on disk when THIS flush had completed)
              `Zm` `Zd` `Zx` persist_metastore / delete_orphaned_partitions / delete_wal_segments
+             `Za`           `wal_flush` returned, the flush thread answered the requests it had taken
              `A<i>`         the harness saw the i-th `Q` call (0-based) return
              `I…` may occur between any two of them
            | `L<hex path>,…`             (C18 only, last token) the directory listing found after the last step
@@ -267,7 +268,8 @@ def Sim.stepTok (s : Sim) (tok : String) : Sim :=
       s1.applyI (.flushBatch fi) false
   | ['Z', 'm'] => s.applyI .flushMeta false
   | ['Z', 'd'] => s.applyI .flushGcParts false
-  | ['Z', 'x'] => s.applyI .flushGcWal true
+  | ['Z', 'x'] => s.applyI .flushGcWal false
+  | ['Z', 'a'] => s.applyI .flushAnswer true
   | 'A' :: _ =>
     match (tok.drop 1).toString.toNat? with
     | some i => { s with answered := s.answered ++ [i], inter := true }
@@ -277,6 +279,7 @@ def Sim.stepTok (s : Sim) (tok : String) : Sim :=
 def parseCfgMaxWal (tok : String) : Nat :=
   match (tok.drop 4).toString.splitOn "," with
   | [_, _, _, _, _, wb] => wb.toNat?.getD 0
+  | [_, _, _, _, _, wb, _] => wb.toNat?.getD 0     -- 7th field: mem_lz4 (in-memory representation only; not modelled)
   | _ => 0
 
 /-- Run a history line; returns the simulation and the trailing `L…` token if present. -/
